@@ -441,7 +441,8 @@ func (c *checker) badPush(i int) {
 		run.Count("bad_pushes_large", 1)
 	}
 	other := []byte(fmt.Sprintf("other bytes %d %d", i, rng.IntN(1<<30)))
-	kinds := []string{"digest-of-other-bytes", "size+1", "size-1", "size-0-with-content", "truncated-content", "chunked-wrong-commit-digest", "empty-body-declared-nonempty", "empty-body-empty-digest-size-5"}
+	kinds := []string{"digest-of-other-bytes", "size+1", "size-1", "size-0-with-content", "truncated-content", "chunked-wrong-commit-digest", "empty-body-declared-nonempty", "empty-body-empty-digest-size-5",
+		"empty-body-empty-digest-size-1", "empty-digest-size-0-with-content", "size-negative"}
 	if !isHTTP(c.kind) {
 		kinds = append(kinds, "extended-content")
 	}
@@ -495,13 +496,31 @@ func (c *checker) badPush(i int) {
 		body = append(append([]byte(nil), content...), "EXTRA"...)
 	case "empty-body-declared-nonempty":
 		body = []byte{} // descriptor of the real content, but nothing is sent
-	case "empty-body-empty-digest-size-5":
+	case "empty-body-empty-digest-size-5", "empty-body-empty-digest-size-1":
 		body = []byte{}
 		d.Digest = ociregistry.Digest(model.EmptyDigest)
 		d.Size = 5
+		if kind == "empty-body-empty-digest-size-1" {
+			d.Size = 1
+		}
 		declared = ""
+	case "empty-digest-size-0-with-content":
+		// the empty blob's own descriptor, with content in the reader
+		d.Digest = ociregistry.Digest(model.EmptyDigest)
+		d.Size = 0
+		declared = ""
+	case "size-negative":
+		d.Size = []int64{-1, -2, math.MinInt64}[i/len(kinds)%3]
 	}
-	w := map[string]any{"stack": c.kind, "bad_push": kind, "declared_digest": declared, "declared_size": d.Size, "body_len": len(body)}
+	// half the time from a reader that is nothing but a reader (no length to ask for)
+	opaque := (i/len(kinds))%2 == 1
+	mkReader := func(b []byte) io.Reader {
+		if opaque {
+			return struct{ io.Reader }{bytes.NewReader(b)}
+		}
+		return bytes.NewReader(b)
+	}
+	w := map[string]any{"stack": c.kind, "bad_push": kind, "declared_digest": declared, "declared_size": d.Size, "body_len": len(body), "opaque_reader": opaque}
 	run.Eval(1)
 	var perr error
 	ok := run.Case("total/bad-push/"+c.kind, w, func() {
@@ -516,13 +535,13 @@ func (c *checker) badPush(i int) {
 			_, perr = wr.Commit(ociregistry.Digest(declared))
 			return
 		}
-		_, perr = c.reg.PushBlob(bg, repo, d, bytes.NewReader(body))
+		_, perr = c.reg.PushBlob(bg, repo, d, mkReader(body))
 	})
 	if !ok {
 		return
 	}
 	run.Count("bad_pushes", 1)
-	run.Distinct(fmt.Sprintf("bad-push/%s/%s", c.kind, kind))
+	run.Distinct(fmt.Sprintf("bad-push/%s/%s/opaque-reader=%v", c.kind, kind, opaque))
 	if perr == nil {
 		run.Violation(fmt.Sprintf("bad-push-accepted/%s/%s", c.kind, kind), fmt.Sprintf("a push with %s was accepted", kind), w)
 	}
